@@ -68,6 +68,9 @@ class AuditResult:
     cases: int
     detail: str = ""
     bound: str = ""
+    # set when the audit ran the REAL code of the tree under verification and found a concrete input on which the property
+    # itself fails (dict(input=, observed=, required=)): reported as a violation with a replayed input, not as a checker error
+    violation: Optional[dict] = None
 
 
 class Check:
@@ -608,9 +611,17 @@ def run_check(check: Check, tier: str = "quick", seed: int = 0) -> int:
         violations.append(dict(obligation=name, replay=rpath, reproduced=bool(rep and rep.get("reproduced"))))
     # bounded stand-in for functions that left the interpreted subset
     stand_in_report = []
-    if undecided:
+    # thorough tier: the bounded native searches of every function under contract run as well (deeper grids), in addition
+    # to the proof - a failing input is a violation with a replayed input, a pass is recorded as bounded and changes nothing
+    forced = []
+    if tier == "thorough":
         try:
-            for r in check.bounded_stand_in(tier, undecided):
+            forced = [f"{c.key} (thorough tier: bounded native search in addition to the proof)" for c in check.contracts()]
+        except Exception:      # noqa: BLE001
+            forced = []
+    if undecided or forced:
+        try:
+            for r in check.bounded_stand_in(tier, list(undecided) + forced):
                 stand_in_report.append({k: (v if isinstance(v, (str, int, float, bool, type(None))) else repr(v)[:300])
                                         for k, v in r.items()})
                 if r.get("reproduced"):
@@ -689,7 +700,16 @@ def run_check(check: Check, tier: str = "quick", seed: int = 0) -> int:
         try:
             ar = a()
             audit_report.append(dict(name=ar.name, ok=ar.ok, cases=ar.cases, bound=ar.bound, detail=ar.detail[:500]))
-            if not ar.ok:
+            if not ar.ok and ar.violation:
+                nm = f"{prop}.bounded_native_audit.{re.sub(r'[^A-Za-z0-9_]+', '_', ar.name)}"
+                rpath = os.path.join(VERIF, "replays", prop, nm[:150] + ".json")
+                os.makedirs(os.path.dirname(rpath), exist_ok=True)
+                with open(rpath, "w") as f:
+                    json.dump(dict(property=prop, obligation=nm, verdict="bounded native audit of the real code found a failing input",
+                                   replay=dict(reproduced=True, **ar.violation), counter_model={}), f, indent=1, default=str)
+                violations.append(dict(obligation=nm, replay=rpath, reproduced=True))
+                out_lines.append(f"VIOLATION property={prop} replay={rpath} obligation={nm}")
+            elif not ar.ok:
                 errors.append(f"audit '{ar.name}' failed: {ar.detail[:300]}")
         except Exception as ex:
             audit_report.append(dict(name=getattr(a, "__name__", "audit"), ok=False, cases=0,
